@@ -286,3 +286,8 @@ def running_average(V, dtype):
                 tot = T.sadd(tot, v)
             out.prove('sample-%d-is-mean-of-ORIGINAL-samples-within-floor(w/2)-positions' % i, T.seq(vals[i], T.sdiv(tot, len(win))))
         out.unchanged('a', a)
+
+
+from pyvc.api import int_variant
+int_variant('C17', 'remove_poly/subtracts-one-polynomial', ['a'])
+int_variant('C17', 'add_constant/add_series/add_signal', ['a'])
